@@ -517,6 +517,9 @@ def function_variants(ctx):
             # the machine-checked witnesses: what Python and the device return is what the theorem says (value ties above); the divergence itself
             # is a C02 violation of the unchanged tree reported with W8 (not yet in KNOWN_FINDINGS.json), so it is counted here, not failed
             ctx.count(f"function-variant:witness:{wit[1]}:" + ("device-differs-from-Python-as-proved" if differs else "agrees"))
+            if differs and "counterexample" in wit[1]:
+                # a genuine C02 violation of the unchanged tree, proved as `Props.C02Fun.<name>` and recorded as known finding K02g (key per witness)
+                ctx.fail(f"types:function-variant-witness:{wit[1]}", f"firmware returns {b!r} where Python returns {a!r} (the machine-checked witness {wit[1]})", replay)
             expect_diff = "counterexample" in wit[1]
             if differs != expect_diff:
                 ctx.tie_diff(TIE + " [witness]", replay, f"{wit[1]}: differs={expect_diff}", f"differs={differs}")
